@@ -986,7 +986,9 @@ open NetVerif.Model.QuicPacket in
 a packet written with a non-zero 32-bit version, connection IDs of at most 20 bytes and a packet
 number that decodes in the receiver's window parses back — whatever follows it in the datagram —
 to the same type, version, packet number, connection IDs and token, with the payload truncated to
-the datagram room and zero-padded to the sample size (`Padded`), reporting exactly its length. -/
+the datagram room and zero-padded to the sample size (`Padded`), reporting exactly its length.
+Whatever the datagram limit, the bytes counted by the 2-byte Length field (packet number, payload,
+tag: everything after `longPnumOff`) number at most 16383 = 2^14 - 1, so the field never wraps. -/
 theorem long_packet_roundtrip (c : Crypto) (lim ptype version : Nat) (dcid scid token : List Nat) (pnum : Nat)
     (maxAcked recvMax : Int) (payload pkt trailing : List Nat)
     (hopen : ∀ pn hdr pay, c.aeadOpen pn hdr (c.aeadSeal pn hdr pay) = some pay)
@@ -997,6 +999,7 @@ theorem long_packet_roundtrip (c : Crypto) (lim ptype version : Nat) (dcid scid 
     (hdec : Model.PacketNumber.decodePN recvMax ((pnum % 256 ^ pnLen pnum maxAcked : Nat)) (pnLen pnum maxAcked) = (pnum : Int))
     (h : writeLong c lim ptype version dcid scid token pnum maxAcked payload = PW.packet pkt) :
     ∃ out, Lemmas.QuicPacketRT.Padded payload out ∧ pkt.length ≤ lim ∧
+      pkt.length ≤ Lemmas.QuicPacketRT.longPnumOff ptype dcid scid token + 16383 ∧
       parseLong c (pkt ++ trailing) recvMax =
         some ({ ptype := ptype, version := version, num := pnum, dcid := dcid, scid := scid,
                 extra := (if ptype = 1 then token else []), payload := out }, pkt.length) :=
